@@ -78,7 +78,14 @@ def _routing(repo, rep):
     for n in ast.walk(f.node):
         if isinstance(n, ast.If) and "mode" in src(n.test) and \
                 "'text'" in src(n.test):
-            for g in ast.walk(ast.Module(body=n.body, type_ignores=[])):
+            # the branch taken in text mode, whichever way the test is
+            # written
+            pt, flip = L._CanonIf._pos(n.test)
+            if src(pt).replace(" ", "") not in ("mode=='text'",
+                                                "'text'==mode"):
+                continue
+            branch = n.orelse if flip else n.body
+            for g in ast.walk(ast.Module(body=branch, type_ignores=[])):
                 if isinstance(g, (ast.GeneratorExp, ast.ListComp)):
                     elt = src(g.elt).replace(" ", "")
                     it = src(g.generators[0].iter)
